@@ -161,7 +161,16 @@ Shape5 == [doc |-> <<"map", <<<<S(<<111>>), Rec(U(1), S(<<112>>))>>, <<S(<<112>>
            root |-> [k |-> "obj", ops |-> <<[op |-> "obj", ks |-> <<111>>, ops |-> RecOps], [op |-> "obj", ks |-> <<112>>, ops |-> RecOps],
                                            [op |-> "req", ks |-> <<110>>, t |-> "i32"]>>],
            paths |-> {<<1>>, <<2>>, <<1, 1>>, <<2, 2>>, <<3>>}]
-Shapes == {Shape1, Shape2, Shape4, Shape5} \cup (IF Arch = "msgpack" THEN {Shape3} ELSE {})
+\* shape 6: a std::tuple member (every component is loaded even when an earlier one is skipped) and a trailing scalar
+Shape6 == [doc |-> <<"map", <<<<S(<<116>>), <<"arr", <<U(1), S(<<120>>), <<"f64", <<63, 248, 0, 0, 0, 0, 0, 0>>>>>>>>>>, <<S(<<110>>), U(5)>>>>>>,
+           root |-> [k |-> "obj", ops |-> <<[op |-> "req", ks |-> <<116>>, t |-> "tuple_i32_str_f64"], [op |-> "req", ks |-> <<110>>, t |-> "i32"]>>],
+           paths |-> {<<1, 1>>, <<1, 2>>, <<1, 3>>, <<2>>}]
+\* shape 7: an array of arrays, each loaded through its own array scope
+Shape7 == [doc |-> <<"arr", <<<<"arr", <<U(1)>>>>, <<"arr", <<U(2)>>>>, U(7)>>>>,
+           root |-> [k |-> "arr", ops |-> <<[op |-> "arr", ops |-> <<[op |-> "elem", t |-> "i32"]>>], [op |-> "arr", ops |-> <<[op |-> "elem", t |-> "i32"]>>],
+                                           [op |-> "elem", t |-> "i32"]>>],
+           paths |-> {<<1>>, <<2>>, <<2, 1>>}]
+Shapes == {Shape1, Shape2, Shape4, Shape5, Shape6, Shape7} \cup (IF Arch = "msgpack" THEN {Shape3} ELSE {})
 
 InitSkip == /\ \E sh \in Shapes : doc = sh.doc /\ root = sh.root /\ aux = [clean |-> sh.doc, todo |-> sh.paths, done |-> {}]
             /\ w \in Widths
@@ -178,7 +187,7 @@ NextSkip == /\ Cardinality(aux.done) < MaxOps
 
 -----------------------------------------------------------------------------
 (* Mode "typed" (C07): every corpus value in every legal width into every target, whole and truncated *)
-Targets == {"bool", "i8", "u8", "i16", "u16", "i32", "u32", "i64", "u64", "f32", "f64", "str", "vec_i32", "objscope"} \cup (IF Arch = "xml" THEN {} ELSE {"null"})
+Targets == {"bool", "i8", "u8", "i16", "u16", "i32", "u32", "i64", "u64", "f32", "f64", "str", "vec_i32", "objscope"} \cup (IF Arch = "xml" THEN {} ELSE {"null", "vec_vec_i32"})
            \cup (IF Arch = "msgpack" THEN {"tp_ns", "vec_u8"} ELSE {})
 
 NumTargets == {"bool", "i8", "u8", "i16", "u16", "i32", "u32", "i64", "u64", "f32", "f64"}
@@ -214,7 +223,8 @@ NumCorpus == { IntSmall(n) : n \in (NumBase - NumNeg)..(NumBase + NumPos) }
              \cup { x \in NumLimits : Arch # "msgpack" \/ ~JsonBigNeg(x) }          \* MessagePack cannot carry integers below -2^63
              \cup { <<"bool", TRUE>>, <<"bool", FALSE>> }
              \cup (IF Arch = "msgpack" THEN FloatCorpus ELSE IF Arch = "xml" THEN XFloats ELSE JFloats)
-TypedCorpus == (IF Arch = "msgpack" THEN ScalarCorpus ELSE IF Arch = "xml" THEN XScalars \cup {<<"nil">>} ELSE JScalars) \cup { <<"arr", <<U(1), U(200), U(-3)>>>>, <<"arr", <<>>>>, <<"arr", <<U(1), S(<<122>>)>>>>, <<"map", <<<<S(Ka), U(1)>>>>>> }
+TypedCorpus == (IF Arch = "msgpack" THEN ScalarCorpus ELSE IF Arch = "xml" THEN XScalars \cup {<<"nil">>} ELSE JScalars) \cup { <<"arr", <<U(1), U(200), U(-3)>>>>, <<"arr", <<>>>>, <<"arr", <<U(1), S(<<122>>)>>>>, <<"map", <<<<S(Ka), U(1)>>>>>>,
+                     <<"arr", <<<<"arr", <<U(1), U(2)>>>>, <<"nil">>, <<"arr", <<U(3)>>>>>>>> }         \* null in place of a nested array
 
 InitTyped == /\ \E v \in (IF Mode = "numeric" THEN NumCorpus ELSE TypedCorpus),
                    T \in (IF TypedTargets # {} THEN TypedTargets ELSE IF Mode = "numeric" THEN NumTargets ELSE Targets) : \E r \in (IF Mode = "numeric" /\ NumLeafOnly THEN { [k |-> "leaf", t |-> T] } ELSE TypedRoots(T)) : ("at" \in DOMAIN r => v[1] \notin {"arr", "map", "nil"}) /\ doc = Wrap(v, r) /\ root = r
